@@ -55,3 +55,39 @@ package rpc
 //@ func NewGRpcServer$1 [C39]
 //@   opt safety=assumed
 //@   ensures result1 == nil ==> ret(auth) == nil
+
+// ---- C39: the method lists are filled from their own configuration keys -----------------------------------
+// each list gets exactly the names of ITS configuration entry (nothing is removed, nothing else is added);
+// an empty entry means "*" for the whitelists
+//@ func InitGrpcFuncWhitelist [C39]
+//@   opt safety=assumed overflow=assumed
+//@   requires cfg != nil && grpcFuncWhitelist != nil
+//@   ensures len(cfg.GrpcFuncWhitelist) == 0 ==> has(grpcFuncWhitelist, "*")
+//@   ensures forall j :: 0 <= j && j < len(cfg.GrpcFuncWhitelist) ==> has(grpcFuncWhitelist, cfg.GrpcFuncWhitelist[j])
+//@   ensures forall k Bytes :: has(grpcFuncWhitelist, k) ==> old(has(grpcFuncWhitelist, k)) || k == "*" || (exists j :: 0 <= j && j < len(cfg.GrpcFuncWhitelist) && cfg.GrpcFuncWhitelist[j] == k)
+//@   loop 0 invariant forall j :: 0 <= j && j <= rangeindex && j < len(cfg.GrpcFuncWhitelist) ==> has(grpcFuncWhitelist, cfg.GrpcFuncWhitelist[j])
+//@   loop 0 invariant forall k Bytes :: has(grpcFuncWhitelist, k) ==> old(has(grpcFuncWhitelist, k)) || (exists j :: 0 <= j && j < len(cfg.GrpcFuncWhitelist) && cfg.GrpcFuncWhitelist[j] == k)
+//@ func InitJrpcFuncWhitelist [C39]
+//@   opt safety=assumed overflow=assumed
+//@   requires cfg != nil && jrpcFuncWhitelist != nil
+//@   ensures len(cfg.JrpcFuncWhitelist) == 0 ==> has(jrpcFuncWhitelist, "*")
+//@   ensures forall j :: 0 <= j && j < len(cfg.JrpcFuncWhitelist) ==> has(jrpcFuncWhitelist, cfg.JrpcFuncWhitelist[j])
+//@   ensures forall k Bytes :: has(jrpcFuncWhitelist, k) ==> old(has(jrpcFuncWhitelist, k)) || k == "*" || (exists j :: 0 <= j && j < len(cfg.JrpcFuncWhitelist) && cfg.JrpcFuncWhitelist[j] == k)
+//@   loop 0 invariant forall j :: 0 <= j && j <= rangeindex && j < len(cfg.JrpcFuncWhitelist) ==> has(jrpcFuncWhitelist, cfg.JrpcFuncWhitelist[j])
+//@   loop 0 invariant forall k Bytes :: has(jrpcFuncWhitelist, k) ==> old(has(jrpcFuncWhitelist, k)) || (exists j :: 0 <= j && j < len(cfg.JrpcFuncWhitelist) && cfg.JrpcFuncWhitelist[j] == k)
+//@ func InitGrpcFuncBlacklist [C39]
+//@   opt safety=assumed overflow=assumed
+//@   requires cfg != nil && grpcFuncBlacklist != nil
+//@   ensures len(cfg.GrpcFuncBlacklist) == 0 ==> has(grpcFuncBlacklist, "CloseQueue")
+//@   ensures forall j :: 0 <= j && j < len(cfg.GrpcFuncBlacklist) ==> has(grpcFuncBlacklist, cfg.GrpcFuncBlacklist[j])
+//@   ensures forall k Bytes :: old(has(grpcFuncBlacklist, k)) ==> has(grpcFuncBlacklist, k)
+//@   loop 0 invariant forall j :: 0 <= j && j <= rangeindex && j < len(cfg.GrpcFuncBlacklist) ==> has(grpcFuncBlacklist, cfg.GrpcFuncBlacklist[j])
+//@   loop 0 invariant forall k Bytes :: old(has(grpcFuncBlacklist, k)) ==> has(grpcFuncBlacklist, k)
+//@ func InitJrpcFuncBlacklist [C39]
+//@   opt safety=assumed overflow=assumed
+//@   requires cfg != nil && jrpcFuncBlacklist != nil
+//@   ensures len(cfg.JrpcFuncBlacklist) == 0 ==> has(jrpcFuncBlacklist, "CloseQueue")
+//@   ensures forall j :: 0 <= j && j < len(cfg.JrpcFuncBlacklist) ==> has(jrpcFuncBlacklist, cfg.JrpcFuncBlacklist[j])
+//@   ensures forall k Bytes :: old(has(jrpcFuncBlacklist, k)) ==> has(jrpcFuncBlacklist, k)
+//@   loop 0 invariant forall j :: 0 <= j && j <= rangeindex && j < len(cfg.JrpcFuncBlacklist) ==> has(jrpcFuncBlacklist, cfg.JrpcFuncBlacklist[j])
+//@   loop 0 invariant forall k Bytes :: old(has(jrpcFuncBlacklist, k)) ==> has(jrpcFuncBlacklist, k)
